@@ -49,12 +49,10 @@ def Log.from (l : Log) (off : Nat) : Bytes := l.bytes.drop (off - l.base)
 
 /-! ## Disk backend -/
 
-/-- `dataSetAof` + its file `<left>.aof` (16-byte header, then `data`).
-    `live` = a writer is attached (index `size == -1`, one `rwRef`). -/
+/-- `dataSetAof` + its file `<left>.aof` (16-byte header, then `data`). -/
 structure DSeg where
   left : Nat
   data : Bytes
-  live : Bool
 deriving Repr, DecidableEq
 
 def DSeg.right (g : DSeg) : Nat := g.left + g.data.length
@@ -80,19 +78,28 @@ structure DReader where
   out : Bytes          -- ghost: everything it delivered
 deriving Repr, DecidableEq
 
+/-- `Storer` + `dataSet`. `segs` are the closed segments (header filled,
+    index `size` = length), `live` is the segment the stream writer is
+    appending to (index `size == -1`, one writer reference); in the Go slice
+    `aofSegs` the live segment is always the last element. -/
 structure Disk where
   logSize : Nat
   maxSize : Nat
   runId : String              -- "" = none
   rdb : Option DRdb
   segs : List DSeg
+  live : Option DSeg
   readers : List DReader
   hbase : Nat                 -- ghost: offset of `hist[0]`
-  hist : Bytes                -- ghost: stream bytes appended since the last reset
+  hist : Bytes                -- ghost: stream bytes appended since the history began
 deriving Repr
 
 def Disk.init (logSize maxSize : Nat) : Disk :=
-  { logSize, maxSize, runId := "", rdb := none, segs := [], readers := [], hbase := 0, hist := [] }
+  { logSize, maxSize, runId := "", rdb := none, segs := [], live := none, readers := [],
+    hbase := 0, hist := [] }
+
+/-- `dataSet.aofSegs` -/
+def Disk.all (s : Disk) : List DSeg := s.segs ++ s.live.toList
 
 inductive DOp where
   | setRunId (id : String)
@@ -129,6 +136,10 @@ deriving Repr, DecidableEq
 
 /-! ### index queries (`dataSet`) -/
 
+def firstLeft : List DSeg → Option Nat
+  | [] => none
+  | g :: _ => some g.left
+
 def lastRight : List DSeg → Option Nat
   | [] => none
   | [g] => some g.right
@@ -136,12 +147,11 @@ def lastRight : List DSeg → Option Nat
 
 /-- `dataSet.getRange` -/
 def Disk.range (s : Disk) : Int × Int :=
-  match s.rdb, s.segs, lastRight s.segs with
-  | none, [], _ => (-1, -1)
-  | some r, [], _ => (r.left, r.left)
-  | none, g :: _, some rr => (g.left, rr)
-  | some r, g :: _, some rr => (min r.left g.left, max r.left rr)
-  | _, _ :: _, none => (-1, -1)   -- unreachable
+  match s.rdb, firstLeft s.all, lastRight s.all with
+  | some r, some ll, some rr => (min r.left ll, max r.left rr)
+  | none, some ll, some rr => (ll, rr)
+  | some r, _, _ => (r.left, r.left)
+  | none, _, _ => (-1, -1)
 
 /-- `dataSet.InRange` -/
 def Disk.inRange (s : Disk) (off : Nat) : Bool :=
@@ -157,7 +167,7 @@ def indexAof (segs : List DSeg) (off : Nat) : Option DSeg :=
 
 /-- `dataSet.Right` / `Storer.LatestOffset` -/
 def Disk.latest (s : Disk) : Int :=
-  match lastRight s.segs, s.rdb with
+  match lastRight s.all, s.rdb with
   | some r, _ => r
   | none, some r => r.left
   | none, none => -1
@@ -173,12 +183,10 @@ def Disk.getRdb (s : Disk) : Int × Int :=
 def DReader.holds (r : DReader) (left : Nat) : Bool :=
   r.isOpen && r.isAof && (r.cur == left || r.prev == some left)
 
+/-- reader references on the segment starting at `left` -/
 def readerRefs (rs : List DReader) (left : Nat) : Nat :=
   (rs.filter (fun r => r.isOpen && r.isAof && r.cur == left)).length +
   (rs.filter (fun r => r.isOpen && r.isAof && r.prev == some left)).length
-
-def segRef (rs : List DReader) (g : DSeg) : Nat :=
-  readerRefs rs g.left + (if g.live then 1 else 0)
 
 def rdbReaderRefs (rs : List DReader) : Nat :=
   (rs.filter (fun r => r.isOpen && !r.isAof)).length
@@ -186,27 +194,13 @@ def rdbReaderRefs (rs : List DReader) : Nat :=
 def rdbRef (rs : List DReader) (r : DRdb) : Nat :=
   rdbReaderRefs rs + (if r.writing then 1 else 0)
 
-/-! ### writer steps -/
-
-/-- `AofRotater.closeAof` + the storer's close observer on the live segment:
-    an empty segment is trimmed (file removed, its readers closed), a non-empty
-    one gets its header and `size`. -/
-def closeLive : List DSeg → List DSeg
-  | [] => []
-  | g :: rest =>
-    if g.live then
-      if g.data.isEmpty then closeLive rest else { g with live := false } :: closeLive rest
-    else g :: closeLive rest
-
-def liveEmptyLefts (segs : List DSeg) : List Nat :=
-  (segs.filter (fun g => g.live && g.data.isEmpty)).map (·.left)
+/-! ### readers closed by index operations -/
 
 def DReader.close (r : DReader) : DReader := { r with isOpen := false, prev := none }
 
 /-- readers tailing a trimmed (empty, live) segment are closed with it -/
-def closeReadersOn (lefts : List Nat) (rs : List DReader) : List DReader :=
-  rs.map (fun r => if r.isOpen && r.isAof && (lefts.contains r.cur || (match r.prev with | some p => lefts.contains p | none => false))
-                   then r.close else r)
+def closeReadersOn (left : Nat) (rs : List DReader) : List DReader :=
+  rs.map (fun r => if r.holds left then r.close else r)
 
 def closeAofReaders (rs : List DReader) : List DReader :=
   rs.map (fun r => if r.isAof then r.close else r)
@@ -216,20 +210,29 @@ def closeRdbReaders (rs : List DReader) : List DReader :=
 
 def closeAllReaders (rs : List DReader) : List DReader := rs.map DReader.close
 
-/-- append to the live (last) segment; rotate when `16 + len > logSize`
-    (`AofRotater.write`) -/
-def appendLive (logSize : Nat) (chunk : Bytes) : List DSeg → List DSeg × Bool
-  | [] => ([], false)
-  | [g] =>
-    if g.live then
-      let g' := { g with data := g.data ++ chunk }
-      if 16 + g'.data.length > logSize then
-        ([{ g' with live := false }, { left := g'.right, data := [], live := true }], true)
-      else ([g'], true)
-    else ([g], false)
-  | g :: rest =>
-    let (rest', ok) := appendLive logSize chunk rest
-    (g :: rest', ok)
+/-! ### writer steps -/
+
+/-- `AofRotater.closeAof` + the storer's close observer on the live segment:
+    an empty segment is trimmed (file removed, its readers closed), a non-empty
+    one gets its header and `size` and stays in the index. -/
+def Disk.closeLive (s : Disk) : Disk :=
+  match s.live with
+  | none => s
+  | some g =>
+    if g.data.isEmpty then { s with live := none, readers := closeReadersOn g.left s.readers }
+    else { s with segs := s.segs ++ [g], live := none }
+
+/-- `AofRotater.write`: append to the live segment; rotate when
+    `16 + len > logSize` -/
+def Disk.appendLive (s : Disk) (chunk : Bytes) : Disk × Bool :=
+  match s.live with
+  | none => (s, false)
+  | some g =>
+    let g' : DSeg := { g with data := g.data ++ chunk }
+    if 16 + g'.data.length > s.logSize then
+      ({ s with segs := s.segs ++ [g'], live := some { left := g'.right, data := [] },
+                hist := s.hist ++ chunk }, true)
+    else ({ s with live := some g', hist := s.hist ++ chunk }, true)
 
 /-! ### collector (`dataSet.gcLogs`) -/
 
@@ -241,15 +244,17 @@ def gcScanRev (max : Nat) : List DSeg → Nat → Nat × Nat
     let size' := size + g.data.length
     if size' > max then (older.length + 1, size') else gcScanRev max older size'
 
-/-- remove up to `k` oldest segments, stopping at the first referenced one -/
+/-- remove up to `k` oldest segments, stopping at the first referenced one
+    (the live segment, last in `aofSegs`, always carries the writer's reference,
+    so the loop never goes past the closed segments) -/
 def dropUnref (rs : List DReader) : Nat → List DSeg → List DSeg
   | 0, l => l
   | _ + 1, [] => []
-  | k + 1, g :: rest => if segRef rs g > 0 then g :: rest else dropUnref rs k rest
+  | k + 1, g :: rest => if readerRefs rs g.left > 0 then g :: rest else dropUnref rs k rest
 
 def Disk.gc (s : Disk) : Disk :=
   if s.maxSize = 0 then s else
-  let (k, size) := gcScanRev s.maxSize s.segs.reverse 0
+  let (k, size) := gcScanRev s.maxSize s.all.reverse 0
   match s.rdb with
   | none => { s with segs := dropUnref s.readers k s.segs }
   | some r =>
@@ -270,17 +275,12 @@ def contigRun : List DSeg → List DSeg
     let run := contigRun (h :: rest)
     if run.length = (h :: rest).length ∧ g.right = h.left then g :: run else run
 
-/-- the run and whether older segments were cut off -/
-def contigSuffix (segs : List DSeg) : List DSeg × Bool :=
-  let run := contigRun segs
-  (run, run.length < segs.length)
-
 /-- `TruncateGap` (repaired, D15): older segments behind a gap are dropped
     together with the snapshot; a snapshot that does not start where the first
     kept segment starts is dropped too. -/
 def truncateGap (rdb : Option DRdb) (segs : List DSeg) : Option DRdb × List DSeg :=
-  let (run, cut) := contigSuffix segs
-  let rdb1 := if cut then none else rdb
+  let run := contigRun segs
+  let rdb1 := if run.length < segs.length then none else rdb
   match rdb1, run with
   | some r, f :: _ => if r.left = f.left then (some r, run) else (none, run)
   | r, _ => (r, run)
@@ -291,19 +291,21 @@ def insertSeg (g : DSeg) : List DSeg → List DSeg
 
 def sortSegs (l : List DSeg) : List DSeg := l.foldr insertSeg []
 
-/-- what `SetRunId` rebuilds from the files of the current index -/
+/-- what `SetRunId` rebuilds from the files of the current index: every
+    non-empty segment file as a closed segment, the snapshot if it was committed -/
 def Disk.rescan (s : Disk) : Disk :=
-  let segs := sortSegs ((s.segs.filter (fun g => !g.data.isEmpty)).map (fun g => { g with live := false }))
+  let segs := sortSegs (s.all.filter (fun g => !g.data.isEmpty))
   let rdb := match s.rdb with
     | some r => if r.final then some { r with writing := false } else none
     | none => none
   let (rdb', segs') := truncateGap rdb segs
-  { s with rdb := rdb', segs := segs' }
+  { s with rdb := rdb', segs := segs', live := none }
 
 /-! ### reset (`resetDataSet`) -/
 
 def Disk.reset (s : Disk) : Disk :=
-  { s with rdb := none, segs := [], readers := closeAllReaders s.readers, hbase := 0, hist := [] }
+  { s with rdb := none, segs := [], live := none, readers := closeAllReaders s.readers,
+           hbase := 0, hist := [] }
 
 /-! ### readers -/
 
@@ -314,15 +316,13 @@ def setReader (rs : List DReader) (r : DReader) : List DReader :=
 
 def findSeg (segs : List DSeg) (left : Nat) : Option DSeg := segs.find? (·.left == left)
 
-def takeN (n : Nat) (bs : Bytes) : Bytes := bs.take n
-
-/-- RDB CRC64 footer check is a parameter of `openReader` (`crcOk`): the
-    caller states whether `checkHeader` accepts the snapshot file (C08 models the
-    check itself). -/
+/-- `GetReader`. The RDB CRC64 footer check is a parameter (`crcOk`): the
+    caller states whether `checkHeader` accepts the snapshot file (C08 models
+    the check itself). -/
 def Disk.open (s : Disk) (rid off : Nat) (crcOk : Bool) : Disk × Out :=
   if (findReader s.readers rid).isSome then (s, .err) else     -- reader ids are fresh
   if !s.inRange off then (s, .notExist) else
-  match indexAof s.segs off with
+  match indexAof s.all off with
   | some g =>
     let r : DReader := { id := rid, isAof := true, cur := g.left, prev := none, pos := off,
                          isOpen := true, start := off, out := [] }
@@ -345,7 +345,7 @@ def Disk.read (s : Disk) (rid n : Nat) : Disk × Out :=
   | some r =>
     if !r.isOpen then (s, .err) else
     if r.isAof then
-      match findSeg s.segs r.cur with
+      match findSeg s.all r.cur with
       | none => (s, .err)
       | some g =>
         let bs := (g.data.drop (r.pos - g.left)).take n
@@ -364,10 +364,10 @@ def Disk.read (s : Disk) (rid n : Nat) : Disk × Out :=
 /-- the reader is at the end of its file and the next file exists -/
 def Disk.canAdvance (s : Disk) (r : DReader) : Bool :=
   r.isOpen && r.isAof && r.prev.isNone &&
-  (match findSeg s.segs r.cur with
+  (match findSeg s.all r.cur with
    | some g => r.pos == g.right
    | none => false) &&
-  (findSeg s.segs r.pos).isSome
+  (findSeg s.all r.pos).isSome
 
 /-- `tryReadNextFile` (repaired order, D17): open `<right>.aof` and take the
     reference on it first … -/
@@ -394,11 +394,6 @@ def Disk.closeReader (s : Disk) (rid : Nat) : Disk × Out :=
   | some r => ({ s with readers := setReader s.readers r.close }, .ok)
 
 /-! ### the step function -/
-
-def lastLive (segs : List DSeg) : Bool :=
-  match segs.getLast? with
-  | some g => g.live
-  | none => false
 
 def Disk.step (s : Disk) : DOp → Disk × Out
   | .setRunId id =>
@@ -433,20 +428,18 @@ def Disk.step (s : Disk) : DOp → Disk × Out
   | .newAofWriter off =>
     -- GetAofWritter: CloseAofWriter (old writer and every stream reader), then
     -- a new live segment at `off`
-    let trimmed := liveEmptyLefts s.segs
-    let segs := closeLive s.segs
-    let cont := match lastRight segs with
+    let s1 := s.closeLive
+    let cont := match lastRight s1.segs with
       | some r => r == off
       | none => false
-    ({ s with segs := segs ++ [{ left := off, data := [], live := true }],
-              readers := closeAofReaders (closeReadersOn trimmed s.readers),
-              hbase := if cont then s.hbase else off,
-              hist := if cont then s.hist else [] }, .ok)
+    ({ s1 with live := some { left := off, data := [] },
+               readers := closeAofReaders s1.readers,
+               hbase := if cont then s.hbase else off,
+               hist := if cont then s.hist else [] }, .ok)
   | .aofAppend chunk =>
-    let (segs, ok) := appendLive s.logSize chunk s.segs
-    if ok then ({ s with segs := segs, hist := s.hist ++ chunk }, .ok) else (s, .errEof)
-  | .aofClose =>
-    ({ s with segs := closeLive s.segs, readers := closeReadersOn (liveEmptyLefts s.segs) s.readers }, .ok)
+    let (s', ok) := s.appendLive chunk
+    if ok then (s', .ok) else (s, .errEof)
+  | .aofClose => (s.closeLive, .ok)
   | .gc => (s.gc, .ok)
   | .openReader rid off crcOk => s.open rid off crcOk
   | .read rid n => s.read rid n
@@ -458,15 +451,37 @@ def Disk.run (s : Disk) : List DOp → Disk
   | [] => s
   | op :: rest => ((s.step op).1).run rest
 
+/-- The callers' protocol (what syncer/input.go and syncer/replica.go
+    guarantee): a stream writer continues where the held stream ends (or, with
+    nothing held, where the snapshot ends); snapshot chunks never exceed the
+    announced size; the directory is re-scanned only with nothing open. -/
+def Disk.okOp (s : Disk) : DOp → Prop
+  | .newAofWriter off =>
+    match lastRight s.closeLive.segs, s.rdb with
+    | some r, _ => off = r
+    | none, some rd => off = rd.left
+    | none, none => True
+  | .newRdbWriter _ size => 0 < size
+  | .rdbAppend chunk =>
+    chunk ≠ [] ∧ ∀ r, s.rdb = some r → r.writing = true → r.data.length + chunk.length ≤ r.size
+  | .aofAppend chunk => chunk ≠ []
+  | .setRunId _ =>
+    s.runId ≠ "" → (∀ r ∈ s.readers, r.isOpen = false) ∧ s.live = none ∧
+      (∀ r, s.rdb = some r → r.writing = false)
+  | _ => True
+
+def Disk.wf (s : Disk) : List DOp → Prop
+  | [] => True
+  | op :: rest => s.okOp op ∧ (s.step op).1.wf rest
+
 /-- the abstraction: what the disk cache holds -/
 def Disk.abs (s : Disk) : Log :=
   { id := s.runId,
-    base := match s.segs with
-      | g :: _ => g.left
-      | [] => match s.rdb with
-        | some r => r.left
-        | none => 0,
-    bytes := s.segs.flatMap (·.data),
+    base := match firstLeft s.all, s.rdb with
+      | some l, _ => l
+      | none, some r => r.left
+      | none, none => 0,
+    bytes := s.all.flatMap (·.data),
     snapshot := match s.rdb with
       | some r => if r.final then some { left := r.left, size := r.size, bytes := r.data } else none
       | none => none }
